@@ -825,6 +825,110 @@ func c09(c *Ctx) {
 		}
 	}
 
+	// ---------- L7c the batch a writer hands to LevelDB is its own and starts empty: a batch kept between calls (a field, "to
+	// avoid re-growing the buffer") still holds the entries of a call that failed half-way, and the next call writes them
+	// together with its own. The batch of db.Write is a local of the function that is declared empty (var b leveldb.Batch,
+	// new(leveldb.Batch), &leveldb.Batch{}), or Reset() is called on it before anything is put into it on every path.
+	for _, mn := range []string{"StoreLogs", "StoreLogProto", "DeleteRange", "ConvertToProto"} {
+		fi := method(mn)
+		if fi == nil || fi.Body() == nil {
+			continue
+		}
+		info := fi.Info()
+		g := c.Graph(fi)
+		for _, call := range astx.Calls(fi.Body(), false) {
+			if !leveldbCall(info, call, "Write") || len(call.Args) < 1 {
+				continue
+			}
+			be := ast.Unparen(call.Args[0])
+			if u, ok := be.(*ast.UnaryExpr); ok && u.Op == token.AND {
+				be = ast.Unparen(u.X)
+			}
+			own, why := false, ""
+			// freshVar: a local of this function every definition of which makes an empty batch — declared without a value,
+			// new(…), a literal, the address of such a local (a helper that built the batch was expanded), or nil on an error path
+			var freshVar func(o types.Object, depth int) bool
+			freshVar = func(o types.Object, depth int) bool {
+				v, isVar := o.(*types.Var)
+				if !isVar || v.IsField() || depth > 3 || !(fi.Body().Pos() <= v.Pos() && v.Pos() <= fi.Body().End()) {
+					return false
+				}
+				for _, d := range defsOf(info, fi.Node(), v) {
+					if d == nil || isNilIdent(info, d) {
+						continue // var b leveldb.Batch
+					}
+					switch x := ast.Unparen(d).(type) {
+					case *ast.CallExpr:
+						if astx.Builtin(info, x) != "new" {
+							return false
+						}
+					case *ast.UnaryExpr:
+						if x.Op != token.AND {
+							return false
+						}
+						switch y := ast.Unparen(x.X).(type) {
+						case *ast.CompositeLit:
+						case *ast.Ident:
+							if !freshVar(astx.Obj(info, y), depth+1) {
+								return false
+							}
+						default:
+							return false
+						}
+					case *ast.CompositeLit:
+					case *ast.Ident:
+						if !freshVar(astx.Obj(info, x), depth+1) {
+							return false
+						}
+					default:
+						return false
+					}
+				}
+				return true
+			}
+			if id, ok := be.(*ast.Ident); ok && freshVar(astx.Obj(info, id), 0) {
+				own, why = true, "a local declared empty in this call"
+			}
+			if !own {
+				// Reset() on the same batch dominates every Put / Delete into it
+				isReset := func(x *cfgx.Vertex) bool {
+					if x.Node == nil {
+						return false
+					}
+					for _, c2 := range astx.Calls(x.Node, false) {
+						if se, ok := ast.Unparen(c2.Fun).(*ast.SelectorExpr); ok && se.Sel.Name == "Reset" {
+							if fn := astx.Callee(info, c2); fn != nil && fn.Pkg() != nil && fn.Pkg().Path() == pathLevelDB {
+								return true
+							}
+						}
+					}
+					return false
+				}
+				all, n := true, 0
+				for _, v := range g.Nodes() {
+					for _, c2 := range astx.Calls(v.Node, false) {
+						se, ok := ast.Unparen(c2.Fun).(*ast.SelectorExpr)
+						if !ok || (se.Sel.Name != "Put" && se.Sel.Name != "Delete") {
+							continue
+						}
+						if fn := astx.Callee(info, c2); fn == nil || fn.Pkg() == nil || fn.Pkg().Path() != pathLevelDB || astx.RecvNamed(fn) == nil || astx.RecvNamed(fn).Obj().Name() != "Batch" {
+							continue
+						}
+						n++
+						if !g.DominatedBy(v.ID, isReset) {
+							all = false
+						}
+					}
+				}
+				if all && n > 0 {
+					own, why = true, "Reset() before anything is put into it"
+				}
+			}
+			r.Check(own, "C09.L7", fi.Name(), "the batch written starts empty", c.P.Pos(call.Pos()), why,
+				mn+" writes a batch that is not created (or reset) in this call: what an earlier call put into it and did not write — it returned early on an error — is written now, under this call's success")
+		}
+	}
+
 	// ---------- L9 iterator discipline
 	{
 		nPos := 0
